@@ -148,6 +148,58 @@ pub fn gen(seed: u64, thorough: bool, only: Option<u64>, out: &mut Out) {
         }
       }
     }
+    // (5) history on one thread: the same (threshold, message, coins) under ANOTHER transcript, then under the first
+    // one again. The two sharings must not share their authenticated part, must not combine, and going back must
+    // give the first sharing again (nothing may be remembered between calls).
+    if g % 3 == 1 && t >= 1 {
+      let other_desc = if custom { None } else { Some((b"another transcript".to_vec(), vec![vec![1u8, 2, 3]])) };
+      let (tr2, trd2) = mk_transcript(&other_desc);
+      let c2 = Commune::new(t, m.clone(), coins.clone(), tr2);
+      if let Ok(sh2) = (0..n).map(|_| c2.clone().share()).collect::<Result<Vec<_>, _>>() {
+        let enc2: Vec<Vec<u8>> = sh2.iter().map(|s| s.to_bytes()).collect();
+        let xs2: Vec<String> = enc2.iter().map(|b| hex(&share_x(b).unwrap_or_default())).collect();
+        let st2: Vec<String> = enc2.iter().map(|b| static_part(b)).collect();
+        let v2 = if st2.iter().any(|x| *x != st2[0]) {
+          Err("static part of two shares of one sharing differs".to_string())
+        } else if st2[0] == statics[0] {
+          Err("the same (threshold, message, coins) under two different transcripts gives the same authenticated share fields".to_string())
+        } else {
+          Ok(())
+        };
+        out.case(
+          format!("adss.share {} {} {} {} {}", t, hex(&m), hex(&coins), trd2, xs2.join(" ")),
+          format!("ok {}", enc2.iter().map(|b| hex(b)).collect::<Vec<_>>().join(",")),
+          v2,
+        );
+        if t >= 2 {
+          for first_is_second in [false, true] {
+            let (a, b) = if first_is_second { (&enc2, &enc) } else { (&enc, &enc2) };
+            let mut mix: Vec<Vec<u8>> = vec![a[0].clone()];
+            mix.extend(b.iter().take(t as usize - 1).cloned());
+            let obs = match decode_all(&mix) {
+              Some(d) => recover_obs(&d),
+              None => "err".into(),
+            };
+            out.case(
+              format!("adss.recover {}", mix.iter().map(|b| hex(b)).collect::<Vec<_>>().join(" ")),
+              obs.clone(),
+              if obs == "err" { Ok(()) } else { Err("shares made under two different transcripts combined".to_string()) },
+            );
+          }
+        }
+        let (tr3, _) = mk_transcript(&desc);
+        let c3 = Commune::new(t, m.clone(), coins.clone(), tr3);
+        if let Ok(s3) = c3.share() {
+          let e3 = s3.to_bytes();
+          let x3 = hex(&share_x(&e3).unwrap_or_default());
+          out.case(
+            format!("adss.share {} {} {} {} {}", t, hex(&m), hex(&coins), trd, x3),
+            format!("ok {}", hex(&e3)),
+            if static_part(&e3) == statics[0] { Ok(()) } else { Err("sharing the same (threshold, message, coins, transcript) again after another sharing gives different share fields".to_string()) },
+          );
+        }
+      }
+    }
     // (4) one share short never recovers (t >= 2)
     if t >= 2 && !custom {
       let few: Vec<Share> = idx.iter().take(t as usize - 1).map(|&i| dec[i].clone()).collect();
